@@ -219,6 +219,8 @@ def make_jobs(ctx: core.Ctx, n_res: int, n_big: int, n_cmp: int, n_tr: int) -> l
             job["pf"] = pi                 # no drawdown: the rate is exactly zero
         elif v == 5:
             job["t_end"] = 1000.0 if kind == "single" else 100.0   # deep depletion: the rate is round-off, either sign
+        if k == n_big and n_res > n_big:
+            job["nt"], job["nx"] = int(rng.integers(5001, 7001)), int(rng.integers(3, 9))   # a long history: more than 5000 time levels
         jobs.append(job)
     for k in range(n_cmp):
         jobs.append({"stage": "cmp", "seed": int(rng.integers(1, 2**31 - 1)), "n": int(rng.integers(20, 61)),
